@@ -143,6 +143,36 @@ func c14Active(c *core.Ctx) {
 			}
 		}
 	}
+	if !c.Failed() && t.Bias(1, 4, "backlog") {
+		// the peer's receive window is closed for a while: the connection's writer blocks in the socket and the
+		// packets WriteTo accepts pile up behind it (tens of kilobytes); when the window opens again the stream
+		// is the exact encoding of every accepted packet, in order - none merged, split, or missing
+		peer.SetRecvCap(16)
+		c.Fault("peer-window-closed-backlog")
+		n := 36 + t.Choose(40, "backlog-n")
+		for i := 0; i < n; i++ {
+			p := tsPayload(salt+5, i, []int{1000, 1200, 700, 8192, 100}[t.Pick([]int{6, 3, 2, 1, 2}, "backlog-len")])
+			if wn, err := pc.WriteTo(p, net.TCPAddrFromAddrPort(remote)); err == nil && wn == len(p) {
+				out = append(out, p)
+			}
+		}
+		synctest.Wait()
+		peer.SetRecvCap(0)
+		time.Sleep(10 * time.Millisecond)
+		synctest.Wait()
+		wire := peer.Buffered()
+		var want []byte
+		for _, p := range out {
+			want = append(want, tsEnc(p)...)
+		}
+		if !bytes.Equal(wire, want) {
+			frames, _ := tsDecodeAll(wire)
+			c.Failf("C14/active-wire-differs", "after a backlog of %d packets behind a closed receive window the peer sees %d bytes / %d whole frames, the RFC 4571 encoding of the %d packets WriteTo accepted has %d bytes; first difference at byte %d",
+				n, len(wire), len(frames), len(out), len(want), c14FirstDiff(wire, want))
+			return
+		}
+		c.Probe("active-backlog-drained-intact")
+	}
 	if !c.Failed() && t.Bias(1, 3, "oversized-inbound") {
 		// a frame longer than the receive MTU arrives (lengths around the limit, around twice the limit, the
 		// largest the header can say), followed by an ordinary one: the stream ends for the reader - no part of
